@@ -62,6 +62,11 @@ pub enum Native {
 	/// `new` over an owned tuple of an empty owned collection (zero-sized) and a fresh lock; `true` = the
 	/// zero-sized member is listed first. 0 = Boxed, 1 = Ref, 2 = Retrying, 3 = Owned
 	ZstOwned(u8, bool),
+	/// like `MutRefs` but built through the conversion traits: via 1 = `From`, 2 = `FromIterator`
+	/// (0 = Owned, 1 = Boxed, 2 = Retrying)
+	MutRefsVia(u8, usize, u8),
+	/// `RefLockCollection::from(&data)` over the shared `[Vec<RwLock>; 2]` listed against its address order
+	VecsFromRef,
 	/// two distinct zero-sized members (empty owned collections): duplicate-free by identity
 	ZstPair(Kind),
 	/// zero-sized members around two references r_i, r_j: a duplicate iff i == j
@@ -97,7 +102,7 @@ impl Spec {
 		match self {
 			Spec::Coll(Kind::Retry, _) => true,
 			Spec::Pois(i) => i.retrying(),
-			Spec::Native(n) => matches!(n, Native::Arr3(Kind::Retry, _) | Native::TupMR(Kind::Retry, ..) | Native::Slice(Kind::Retry, _) | Native::NewOW(Kind::Retry, _) | Native::VecsNew(Kind::Retry) | Native::VecsRefs(Kind::Retry) | Native::MutRefs(2, _) | Native::TupN(2, _) | Native::ZstOwned(2, _) | Native::OwnedDescIn(Kind::Retry, _) | Native::ZstPair(Kind::Retry) | Native::ZstAround(Kind::Retry, ..) | Native::RetryNewVec(_) | Native::RetryNewArr3 | Native::RetryOwnedR(_)),
+			Spec::Native(n) => matches!(n, Native::Arr3(Kind::Retry, _) | Native::TupMR(Kind::Retry, ..) | Native::Slice(Kind::Retry, _) | Native::NewOW(Kind::Retry, _) | Native::VecsNew(Kind::Retry) | Native::VecsRefs(Kind::Retry) | Native::MutRefs(2, _) | Native::MutRefsVia(2, ..) | Native::TupN(2, _) | Native::ZstOwned(2, _) | Native::OwnedDescIn(Kind::Retry, _) | Native::ZstPair(Kind::Retry) | Native::ZstAround(Kind::Retry, ..) | Native::RetryNewVec(_) | Native::RetryNewArr3 | Native::RetryOwnedR(_)),
 			_ => false,
 		}
 	}
@@ -589,6 +594,26 @@ impl<'w> World<'w> {
 							_ => st.stash(OwnedLockCollection::new(data)),
 						}
 					}
+				}
+				Native::MutRefsVia(which, n, via) => {
+					let (v, ids) = self.fresh_rs(*n, 0);
+					let boxed: &'w mut Box<[R]> = st.stash_mut(v.into_boxed_slice());
+					let mut refs: Vec<&'w mut R> = boxed.iter_mut().collect();
+					refs.reverse();
+					leaves = ids.iter().rev().copied().collect();
+					match (which, via) {
+						(0, 1) => st.stash(OwnedLockCollection::from(refs)),
+						(0, _) => st.stash(refs.into_iter().collect::<OwnedLockCollection<Vec<&'w mut R>>>()),
+						(1, 1) => st.stash(BoxedLockCollection::from(refs)),
+						(1, _) => st.stash(refs.into_iter().collect::<BoxedLockCollection<Vec<&'w mut R>>>()),
+						(_, 1) => st.stash(RetryingLockCollection::from(refs)),
+						(_, _) => st.stash(refs.into_iter().collect::<RetryingLockCollection<Vec<&'w mut R>>>()),
+					}
+				}
+				Native::VecsFromRef => {
+					let (data, hi, lo) = self.shared_vecs();
+					leaves = hi.iter().chain(lo.iter()).copied().collect();
+					st.stash(RefLockCollection::from(data))
 				}
 				Native::VecsNew(k) => {
 					let (data, hi, lo) = self.shared_vecs();
